@@ -1,7 +1,9 @@
 import Postcard.Props.C14
 -- property theorems of C14: every one must depend only on propext / Classical.choice / Quot.sound
-#print axioms Postcard.schema_conforms_partial
+#print axioms Postcard.schema_conforms
 #print axioms Postcard.schema_conforms_list
+#print axioms Postcard.schema_conforms_of_namesOk
+#print axioms Postcard.schema_conforms_unrepaired_partial
 #print axioms Postcard.schema_reader
 #print axioms Postcard.schema_reader_bytes
 #print axioms Postcard.callTree_wfVal
